@@ -81,7 +81,7 @@ def evidence(prop, tier, seed, plan, results, infra, unlisted, known_hits, wall,
         "property_id": prop,
         "tier": tier,
         "seed": seed,
-        "level": "exploration",
+        "level": META.get(prop, {}).get("category", "exploration"),
         "wall_s": round(wall, 1),
         "violations": len(unlisted),
         "coverage": {
